@@ -382,6 +382,209 @@ def scalar_vcs() -> List[core.VC]:
     return vcs
 
 
+def _is_call_on(st: ast.stmt, var: str, attr: str):
+    if isinstance(st, ast.Expr) and isinstance(st.value, ast.Call) and isinstance(st.value.func, ast.Attribute) and st.value.func.attr == attr \
+            and isinstance(st.value.func.value, ast.Name) and st.value.func.value.id == var:
+        return st.value
+    return None
+
+
+def compress_df_vcs() -> List[core.VC]:
+    """`_compress_df`: (a) which rows survive — the row-removing statements executed relationally on a symbolic frame;
+    (b) no other statement of the function removes, adds or re-binds rows (syntactic frame); (c) the down-cast loop body
+    executed for a symbolic column name and dtype kind: `ts` / `dur` are never re-stored, a re-stored column is the
+    down-cast of ITSELF."""
+    h = extract.get_function(TP, "_compress_df")
+    fq = [h.fq]
+    node = extract.stripped(h)
+    name = f"{PROP}.compress_df"
+    vcs: List[core.VC] = []
+    # ---- (a) row filter: the top-level statements `df.dropna(...)` / `df.drop(<rows>.index, ...)`
+    row_stmts = []
+    for st in node.body:
+        c = _is_call_on(st, "df", "dropna")
+        if c is not None:
+            row_stmts.append(st)
+            continue
+        c = _is_call_on(st, "df", "drop")
+        if c is not None and not any(k.arg in ("axis", "columns") for k in c.keywords):
+            row_stmts.append(st)
+    if not row_stmts:
+        raise pyvc.Unsupported("_compress_df: no row-removing statement found (the contract reads dropna + drop(<rows>.index))")
+    ex = pyvc.Exec(consts=extract.module_constants(TP), name=name)
+    fv.install(ex)
+    cols = {"index": (z3.IntSort(), False, "int"), "ts": (z3.IntSort(), True, "int"), "dur": (z3.IntSort(), True, "int"),
+            "cat": (z3.StringSort(), True, "str"), "name": (z3.StringSort(), True, "str"), "ph": (z3.StringSort(), True, "str")}
+    df = fv.SymDF.base("raw", cols)
+    pres0, cols0 = df.present, dict(df.cols)
+    outs = ex.exec_block(row_stmts, [], {"df": df})
+    if len(outs) != 1 or outs[0].kind != "fall" or outs[0].env.get("df") is not df:
+        raise pyvc.Unsupported("_compress_df row statements: more than one path or the frame was re-bound")
+    vcs += [core.VC(pv.name, pv.hyps, pv.goal, "vc", fq, {}, note=pv.note) for pv in ex.vcs]
+    r = df.uni.skolem("r")
+    dur_null, cat_null, cat_val = to_z3(cols0["dur"].isnull(r)), to_z3(cols0["cat"].isnull(r)), to_z3(cols0["cat"].val(r))
+    want = z3.And(to_z3(pres0(r)), z3.Not(dur_null), z3.Not(cat_null), cat_val != z3.StringVal("Trace"))
+    facts = [to_z3(f) for f in ex.facts]
+    mv = {"row": r[0], "dur_missing": dur_null, "cat_missing": cat_null, "cat": cat_val, "kept": to_z3(df.present(r))}
+    vcs.append(core.VC(f"{name}.rows.sound", facts + [to_z3(df.present(r))], want, "vc", fq, mv,
+                       note="a surviving row is a row of the file's event list that carries a duration and a category other than 'Trace'"))
+    vcs.append(core.VC(f"{name}.rows.complete", facts + [want], to_z3(df.present(r)), "vc", fq, mv,
+                       note="every entry with a duration and a category other than 'Trace' survives (no complete event is lost)"))
+    same = z3.And(*[to_z3(df.cols[c].val(r)) == to_z3(cols0[c].val(r)) for c in ("index", "ts", "dur", "cat", "name")])
+    vcs.append(core.VC(f"{name}.rows.values_unchanged", facts + [to_z3(df.present(r))], same, "vc", fq, {"row": r[0]},
+                       note="removing rows leaves index / ts / dur / cat / name of the surviving rows as they were"))
+    vcs.append(core.VC(f"{name}.rows.vacuity", facts + [to_z3(df.present(r))], z3.BoolVal(False), "vacuity", fq, {}))
+    vcs.append(core.VC(f"{name}.rows.canary", facts + [to_z3(pres0(r))], to_z3(df.present(r)), "canary", fq, {}, note="not every entry survives"))
+    # ---- (b) syntactic frame: nothing else changes the row set or re-binds `df`
+    others = []
+    row_ids = {id(s) for s in row_stmts}
+    for st in ast.walk(node):
+        if id(st) in row_ids:
+            continue
+        if isinstance(st, (ast.Assign, ast.AugAssign, ast.AnnAssign)):
+            tg = st.targets if isinstance(st, ast.Assign) else [st.target]
+            for t in tg:
+                for n in ast.walk(t) if isinstance(t, (ast.Tuple, ast.List)) else [t]:
+                    if isinstance(n, ast.Name) and n.id == "df":
+                        others.append(f"L{st.lineno}: df re-bound")
+                    if isinstance(n, ast.Subscript) and isinstance(n.value, ast.Attribute) and n.value.attr in ("loc", "iloc", "at") and isinstance(n.value.value, ast.Name) and n.value.value.id == "df":
+                        others.append(f"L{st.lineno}: df.{n.value.attr}[...] assignment (may enlarge the frame)")
+        if isinstance(st, ast.Expr) and isinstance(st.value, ast.Call) and isinstance(st.value.func, ast.Attribute) and isinstance(st.value.func.value, ast.Name) and st.value.func.value.id == "df":
+            c = st.value
+            a = c.func.attr
+            if a == "drop" and any(k.arg == "axis" and isinstance(k.value, ast.Constant) and k.value.value == 1 for k in c.keywords):
+                continue  # column removal
+            if a == "drop" and any(k.arg == "columns" for k in c.keywords) and not any(k.arg in ("index", "labels") for k in c.keywords) and not c.args:
+                continue
+            others.append(f"L{st.lineno}: df.{a}(...) as a statement")
+    rets = [n for n in ast.walk(node) if isinstance(n, ast.Return)]
+    ret_ok = len(rets) == 1 and isinstance(rets[0].value, ast.Tuple) and isinstance(rets[0].value.elts[0], ast.Name) and rets[0].value.elts[0].id == "df"
+    if others or not ret_ok:
+        # such a statement may be perfectly fine (e.g. `df = df[df["cat"] != "Trace"]`): outside the contract's reading, not a refutation
+        raise pyvc.Unsupported(f"_compress_df: statements that may change the row set besides dropna / drop(<rows>.index): {others}; returns df: {ret_ok}")
+    vcs.append(core.VC(f"{name}.rows.frame", [], z3.BoolVal(not others and ret_ok), "vc", fq, {},
+                       note=f"no other statement removes / adds rows or re-binds df, and df itself is returned; found: {others or 'none'}"))
+    # ---- (c) down-cast loop
+    loop = None
+    for n in ast.walk(node):
+        if isinstance(n, ast.For) and any(isinstance(x, ast.Attribute) and x.attr == "to_numeric" for x in ast.walk(n)):
+            loop = n
+    if loop is None:
+        # no down-cast at all: nothing can wrap; the obligations below hold trivially
+        vcs.append(core.VC(f"{name}.downcast.absent", [], z3.BoolVal(True), "vc", fq, {}, note="no pd.to_numeric loop in _compress_df"))
+        return vcs
+    if not (isinstance(loop.target, ast.Name) and isinstance(loop.iter, ast.Attribute) and loop.iter.attr == "columns" and not loop.orelse):
+        raise pyvc.Unsupported("_compress_df down-cast loop: not `for <col> in df.columns`")
+    colname = z3.String("col")
+    kind = z3.String("dtype_kind")
+    writes: List[Any] = []
+
+    class _Dtype:
+        def hv_getattr(self, exq, attr, pc):
+            if attr == "kind":
+                return kind
+            raise pyvc.Unsupported(f"dtype.{attr} in the down-cast loop")
+
+    class _ColRef:
+        def __init__(self, key):
+            self.key = key
+
+        def hv_getattr(self, exq, attr, pc):
+            if attr == "dtype":
+                return _Dtype()
+            return NotImplemented
+
+    class _Frame:
+        def hv_getitem(self, exq, idx, pc):
+            return _ColRef(idx)
+
+        def hv_setitem(self, exq, idx, v, pc):
+            writes.append((list(pc), idx, v))
+
+        def hv_getattr(self, exq, attr, pc):
+            raise pyvc.Unsupported(f"df.{attr} inside the down-cast loop body")
+
+    class _Down:
+        def __init__(self, src, kw):
+            self.src, self.kw = src, kw
+
+    @pyvc.intrinsic
+    def _to_numeric(exq, pc, env, args, kwargs):
+        return _Down(args[0] if args else None, dict(kwargs))
+
+    ex2 = pyvc.Exec(consts=extract.module_constants(TP), name=f"{name}.downcast")
+    ex2.consts["pd"] = pyvc.Namespace("pd", {"to_numeric": _to_numeric})
+    outs2 = ex2.exec_block(loop.body, [], {"df": _Frame(), loop.target.id: colname})
+    if any(o.kind not in ("fall", "continue") for o in outs2):
+        raise pyvc.Unsupported("_compress_df down-cast loop body leaves the loop (break / return / raise)")
+    vcs += [core.VC(pv.name, pv.hyps, pv.goal, "vc", fq, {}, note=pv.note) for pv in ex2.vcs]
+    mv2 = {"col": colname, "dtype_kind": kind}
+    shape_ok = True
+    for k, (pc, idx, v) in enumerate(writes):
+        hy = [to_z3(c) for c in pc if c is not True]
+        vcs.append(core.VC(f"{name}.downcast.never_time_columns.{k}", hy, z3.And(to_z3(idx) != z3.StringVal("ts"), to_z3(idx) != z3.StringVal("dur")), "vc", fq, mv2,
+                           note="a column re-stored by the loop is neither ts nor dur (64-bit time columns: ts + dur, ts − min_ts cannot wrap; D23)"))
+        vcs.append(core.VC(f"{name}.downcast.same_column.{k}", hy, to_z3(idx) == colname, "vc", fq, mv2, note="the loop writes the column it is visiting"))
+        ok = isinstance(v, _Down) and isinstance(v.src, _ColRef) and z3.is_expr(v.src.key) and z3.eq(v.src.key, colname) and v.kw.get("downcast") == "integer" and set(v.kw) <= {"downcast", "errors"}
+        shape_ok = shape_ok and ok
+    vcs.append(core.VC(f"{name}.downcast.value_is_downcast_of_itself", [], z3.BoolVal(shape_ok), "vc", fq, {},
+                       note="every stored value is pd.to_numeric(df[col], downcast='integer') of the visited column (assumed pandas contract: value-preserving narrowing to the smallest signed type holding every value)"))
+    vcs.append(core.VC(f"{name}.downcast.canary", [], z3.BoolVal(len(writes) == 0), "canary", fq, {}, note="the loop does store something on some path"))
+    return vcs
+
+
+def json_reader_vcs() -> List[core.VC]:
+    """`_parse_trace_dataframe_json`: the caller side of `_compress_df`'s precondition (fresh unique labels) and of the clause
+    "identified by its position in the file's event list": the frame is built from `trace_record["traceEvents"]`, `reset_index`
+    turns the positions 0..n-1 into the column `index` BEFORE any row is removed, and that column is only re-stored as the
+    down-cast of itself. Statement-order obligations over the real AST; any other statement in between is outside the contract's
+    reading (undecided, the bounded stage decides)."""
+    f = extract.get_function(TP, "_parse_trace_dataframe_json")
+    fq = [f.fq]
+    node = extract.stripped(f)
+    name = f"{PROP}.json_reader"
+    block = None
+    for n in ast.walk(node):
+        if isinstance(n, ast.If) and any(isinstance(x, ast.Call) and isinstance(x.func, ast.Name) and x.func.id == "_compress_df" for x in ast.walk(n)):
+            block = n
+    if block is None:
+        raise pyvc.Unsupported("_parse_trace_dataframe_json: no block calling _compress_df")
+    kinds: List[str] = []
+    for st in block.body:
+        src = ast.unparse(st).replace("'", '"')
+        if isinstance(st, (ast.Assign, ast.AnnAssign)) and src.replace(": pd.DataFrame", "") == 'df = pd.DataFrame(trace_record["traceEvents"])':
+            kinds.append("build")
+        elif src == "round_down_time_stamps(df)":
+            kinds.append("round")
+        elif _is_call_on(st, "df", "reset_index") is not None:
+            c = _is_call_on(st, "df", "reset_index")
+            kw = {k.arg: getattr(k.value, "value", "?") for k in c.keywords}
+            if c.args or kw.get("inplace") is not True or not set(kw) <= {"inplace", "drop"} or kw.get("drop", False) not in (True, False):
+                raise pyvc.Unsupported(f"_parse_trace_dataframe_json: reset_index call outside the contract's reading: {src}")
+            kinds.append("reset" if not kw.get("drop", False) else "reset_dropping_positions")
+        elif isinstance(st, ast.Assign) and src.startswith('df["index"] = pd.to_numeric(df["index"]'):
+            kinds.append("narrow_index")
+        elif isinstance(st, ast.Assign) and src.endswith("= _compress_df(df, cfg)") and isinstance(st.targets[0], ast.Tuple) and isinstance(st.targets[0].elts[0], ast.Name) and st.targets[0].elts[0].id == "df":
+            kinds.append("compress")
+        else:
+            raise pyvc.Unsupported(f"_parse_trace_dataframe_json: statement outside the contract's reading at line {st.lineno}: {src[:80]}")
+    def before(a, b):
+        return a in kinds and b in kinds and kinds.index(a) < kinds.index(b) and kinds.count(a) == 1 and kinds.count(b) == 1
+    vcs = [core.VC(f"{name}.frame_is_the_event_list", [], z3.BoolVal(kinds[:1] == ["build"]), "vc", fq, {}, note=f"row i of the frame is entry i of traceEvents (pd.DataFrame(list of dicts) contract); statements: {kinds}"),
+           core.VC(f"{name}.index_is_file_position", [], z3.BoolVal(before("build", "reset") and before("reset", "compress")), "vc", fq, {},
+                   note="reset_index(inplace=True) on the fresh RangeIndex stores the positions 0..n-1 in column `index` before _compress_df removes any row"),
+           core.VC(f"{name}.labels_unique_at_compress", [], z3.BoolVal(before("reset", "compress") and all(k in ("build", "round", "reset", "narrow_index", "compress") for k in kinds)), "vc", fq, {},
+                   note="between reset_index and _compress_df nothing touches rows or labels: _compress_df's precondition (unique labels) holds at the call")]
+    ret = [n for n in ast.walk(node) if isinstance(n, ast.Return)]
+    ok = len(ret) == 1 and isinstance(ret[0].value, ast.Tuple) and len(ret[0].value.elts) == 3 and isinstance(ret[0].value.elts[1], ast.Name) and ret[0].value.elts[1].id == "df"
+    vcs.append(core.VC(f"{name}.returns_compressed_frame", [], z3.BoolVal(ok), "vc", fq, {}, note="the frame handed back is the one _compress_df returned"))
+    # round_down_time_stamps (runs between build and reset) writes columns only: no row is removed, added or re-ordered
+    g = extract.get_function(TP, "round_down_time_stamps")
+    got = assigned_columns(g.node, "df")
+    vcs.append(core.VC(f"{name}.rounding_keeps_rows", [], z3.BoolVal(set(got) <= {"ts", "end", "dur"}), "vc", [g.fq], {}, note=f"round_down_time_stamps assigns only columns {got}"))
+    return vcs
+
+
 # ---------------------------------------------------------------------------------------------- bounded
 
 
@@ -531,7 +734,9 @@ def units(ctx):
             core.Unit(f"{PROP}.parse_trace_file", parse_file_vcs, [TR + ".parse_trace_file"]),
             core.Unit(f"{PROP}.align_all_ranks", align_vcs, [TR + ".Trace._align_all_ranks"]),
             core.Unit(f"{PROP}.load_traces", load_traces_vcs, [TR + ".Trace.load_traces"]),
-            core.Unit(f"{PROP}.scalars", scalar_vcs, [UT + ".normalize_gpu_stream_numbers", TP + "._compress_df"])]
+            core.Unit(f"{PROP}.scalars", scalar_vcs, [UT + ".normalize_gpu_stream_numbers", TP + "._compress_df"]),
+            core.Unit(f"{PROP}.compress_df", compress_df_vcs, [TP + "._compress_df"]),
+            core.Unit(f"{PROP}.json_reader", json_reader_vcs, [TP + "._parse_trace_dataframe_json"])]
 
 
 def replay(ctx, rec: Dict[str, Any]) -> Dict[str, Any]:
@@ -575,17 +780,45 @@ def replay(ctx, rec: Dict[str, Any]) -> Dict[str, Any]:
             return {"confirmed": True, "input": {"ts": float(ts), "dur": float(dur)}, "observed": f"{type(e).__name__}: {e}"}
         want = {"ts": math.ceil(ts), "end": math.floor(ts + dur), "dur": math.floor(ts + dur) - math.ceil(ts)}
         return {"confirmed": got != want, "input": {"ts": float(ts), "dur": float(dur)}, "observed": got, "expected": want, "how": "hta.common.trace_parser.round_down_time_stamps on a one-row frame"}
+    if ".compress_df.rows." in name and "dur_missing" in m:
+        from hta.common.trace_parser import _compress_df
+
+        def unq(x):
+            x = str(x)
+            return x[1:-1] if len(x) >= 2 and x[0] == '"' and x[-1] == '"' else x
+
+        dm, cm, cat = str(m["dur_missing"]) == "True", str(m["cat_missing"]) == "True", unq(m.get("cat", "cpu_op"))
+        if not cat.isascii() or "\\" in cat:
+            cat = "Trace" if "Trace" in cat else "c"
+        ev: Dict[str, Any] = {"ph": "X", "name": "probe", "pid": 1, "tid": 1, "ts": 10}
+        if not dm:
+            ev["dur"] = 5
+        if not cm:
+            ev["cat"] = cat
+        other = {"ph": "X", "name": "other", "cat": "cpu_op", "pid": 1, "tid": 1, "ts": 20, "dur": 5, "args": {"External id": 1}}
+        df = pd.DataFrame([ev, other])
+        df.reset_index(inplace=True)
+        try:
+            out, _ = _compress_df(df)
+            got = bool((out["index"] == 0).any())
+        except Exception as e:  # noqa: BLE001
+            return {"confirmed": True, "input": {"events": [ev, other]}, "observed": f"{type(e).__name__}: {e}"}
+        want = (not dm) and (not cm) and cat != "Trace"
+        return {"confirmed": got != want, "input": {"events": [ev, other]}, "observed": {"first entry kept": got}, "expected": {"first entry kept": want},
+                "how": "hta.common.trace_parser._compress_df on the two-entry event list (after reset_index, as _parse_trace_dataframe_json does)"}
     return {"confirmed": False, "why": "no replay for this obligation"}
 
 
 SPEC = Spec(
     prop=PROP, level="other", replay=replay,
-    functions=[(TP, "round_down_time_stamps"), (TR, "parse_trace_file"), (TR, "Trace._align_all_ranks"), (TR, "Trace.load_traces"), (TP, "_compress_df"),
+    functions=[(TP, "round_down_time_stamps"), (TR, "parse_trace_file"), (TR, "Trace._align_all_ranks"), (TR, "Trace.load_traces"), (TP, "_compress_df"), (TP, "_parse_trace_dataframe_json"),
                (UT, "normalize_gpu_stream_numbers"), (UT, "normalize_gpu_stream_numbers._normalize_stream_number"), (TR, "add_fwd_bwd_links"), (TR, "add_iteration")],
     units=units, bounded=[Bounded("load_vs_json", bounded)],
     trusted=["pandas contracts (column arithmetic, apply, Series.min, set_index, label alignment) listed under assumptions", "math.ceil / math.floor on reals",
              "JSON text -> Python objects; ijson back-ends are not installed (get_default_trace_parsing_backend returns JSON)"],
     explanation="Proved (z3, from the AST): inward rounding and its order lemmas, end = ts + dur in parse_trace_file with the callees' write sets, alignment by one shared "
-                "minimal constant with end recomputed (1-3 ranks), load_traces indexing, the args lambda. Bounded (real code vs. the JSON, never counted as proved): "
-                "_compress_df's row survival / symbol encoding / argument expansion as a whole, _parse_trace_dataframe_json's index = file position, multi-rank re-encoding.",
+                "minimal constant with end recomputed (1-3 ranks), load_traces indexing, the args lambda; _compress_df's row survival (kept iff the entry carries a duration and a "
+                "category other than 'Trace', values of kept rows unchanged, no other statement changes the row set) and its down-cast loop (ts / dur never re-stored, a column is "
+                "replaced only by the down-cast of itself). Bounded (real code vs. the JSON, never counted as proved): "
+                "_compress_df's symbol encoding / argument expansion as a whole, _parse_trace_dataframe_json's index = file position, multi-rank re-encoding.",
 )
